@@ -23,15 +23,15 @@ auto syrk(filling c_side, typename A2D::element alpha, A2D const& a, typename A2
 	assert( cc.stride() == 1 || cc.rotated().stride() == 1 );
 	if(stride(a) == 1) {
 		if(cc.stride() == 1) {
-			syrk(flip(c_side) == filling::upper ? 'L' : 'U', 'N', cc.size(), a.rotated().size(), &alpha, a.base(), a.rotated().stride(), &beta, cc.base(), cc.rotated().stride());
+			syrk(flip(c_side) == filling::upper ? 'L' : 'U', 'N', cc.size(), a.rotated().size(), &alpha, a.base(), legal_ld(a.rotated().stride(), cc.size()), &beta, cc.base(), cc.rotated().stride());
 		} else {
-			syrk(c_side == filling::upper ? 'L' : 'U', 'N', cc.size(), a.rotated().size(), &alpha, a.base(), a.rotated().stride(), &beta, cc.base(), cc.stride());
+			syrk(c_side == filling::upper ? 'L' : 'U', 'N', cc.size(), a.rotated().size(), &alpha, a.base(), legal_ld(a.rotated().stride(), cc.size()), &beta, cc.base(), cc.stride());
 		}
 	} else {
 		if(cc.stride() == 1) {
-			syrk(flip(c_side) == filling::upper ? 'L' : 'U', 'T', cc.size(), a.rotated().size(), &alpha, a.base(), stride(a), &beta, cc.base(), cc.rotated().stride());
+			syrk(flip(c_side) == filling::upper ? 'L' : 'U', 'T', cc.size(), a.rotated().size(), &alpha, a.base(), legal_ld(stride(a), a.rotated().size()), &beta, cc.base(), cc.rotated().stride());
 		} else {
-			syrk(c_side == filling::upper ? 'L' : 'U', 'T', cc.size(), a.rotated().size(), &alpha, a.base(), a.stride(), &beta, cc.base(), cc.stride());
+			syrk(c_side == filling::upper ? 'L' : 'U', 'T', cc.size(), a.rotated().size(), &alpha, a.base(), legal_ld(a.stride(), a.rotated().size()), &beta, cc.base(), cc.stride());
 		}
 	}
 	return std::forward<C2D>(cc);
